@@ -439,7 +439,97 @@ func vfRunAdvCountdown(t *testing.T, out *vfh.Out, V, P, L, age, stop time.Durat
 	})
 }
 
+// vfRunAdvCountdownFlap: the same countdown, and the link drops at flapAt — shortly after a multicast RA,
+// so that the re-established interface's initial RA falls inside MIN_DELAY_BETWEEN_RAS of the previous
+// multicast RA: whatever is done about that, an RA carries the lifetimes remaining at the instant it is
+// WRITTEN, on every connection.
+func vfRunAdvCountdownFlap(t *testing.T, out *vfh.Out, V, P, L, age, flapAt, stop time.Duration) {
+	out.Pending(fmt.Sprintf("runAdvCountdownFlap V=%v P=%v L=%v age=%v flapAt=%v stop=%v", V, P, L, age, flapAt, stop))
+	synctest.Test(t, func(t *testing.T) {
+		epoch := time.Now().Add(-age)
+		st := &vfState{forwarding: true}
+		cfg := vfAdvConfig(4*time.Second, 4*time.Second, false, 1800*time.Second)
+		cfg.Plugins = []plugin.Plugin{
+			&plugin.Prefix{Prefix: netip.MustParsePrefix("2001:db8:dead::/64"), OnLink: true, Autonomous: true,
+				ValidLifetime: V, PreferredLifetime: P, Deprecated: true, Epoch: epoch},
+			&plugin.Route{Prefix: netip.MustParsePrefix("2001:db8:beef::/48"), Preference: ndp.Medium, Lifetime: L, Deprecated: true, Epoch: epoch},
+		}
+		mm := NewMetrics(metricslite.NewMemory(), "v", time.Time{}, st, []config.Interface{cfg})
+		cctx := NewContext(nil, mm, st)
+		watchC := make(chan netstate.Change, 8)
+		var mu sync.Mutex
+		var conns []*vfConn
+		d := system.NewDialer("vf0", st, system.Advertise, nil)
+		d.DialFunc = func() (*system.DialContext, error) {
+			c := vfNewVfConn()
+			mu.Lock()
+			conns = append(conns, c)
+			mu.Unlock()
+			return &system.DialContext{Conn: c,
+				Interface: &net.Interface{Index: 1, Name: "vf0", HardwareAddr: net.HardwareAddr{2, 0, 0, 0, 0, 1}},
+				IP:        netip.MustParseAddr("fe80::1")}, nil
+		}
+		a := NewAdvertiser(cctx, cfg, d, watchC, func() bool { return true })
+		ctx, cancel := context.WithCancel(context.Background())
+		done := make(chan error, 1)
+		go func() { done <- a.Run(ctx) }()
+		synctest.Wait()
+		time.Sleep(flapAt)
+		watchC <- netstate.LinkDown
+		synctest.Wait()
+		time.Sleep(stop)
+		cancel()
+		select {
+		case <-done:
+		case <-time.After(10 * time.Minute):
+		}
+		synctest.Wait()
+		type stamped struct {
+			at time.Time
+			w  vfWrite
+		}
+		var ws []stamped
+		mu.Lock()
+		for _, c := range conns {
+			for _, w := range c.snapshot() {
+				ws = append(ws, stamped{c.t0.Add(w.begin), w})
+			}
+		}
+		mu.Unlock()
+		sort.SliceStable(ws, func(i, j int) bool { return ws[i].at.Before(ws[j].at) })
+		e := epoch.UnixNano()
+		pc := new(vfh.Toks).S("pl").B(true).I(e).I(int64(V)).I(int64(P)).I(0).N(len(ws))
+		rc := new(vfh.Toks).S("rl").B(true).I(e).I(int64(L)).I(0).N(len(ws))
+		pi, ri := new(vfh.Toks), new(vfh.Toks)
+		for _, sw := range ws {
+			at := sw.at.UnixNano()
+			pc.I(at)
+			rc.I(at)
+			pv, pp, rl := int64(-1), int64(-1), int64(-1)
+			if sw.w.ra != nil {
+				for _, o := range sw.w.ra.Options {
+					switch o := o.(type) {
+					case *ndp.PrefixInformation:
+						pv, pp = int64(o.ValidLifetime), int64(o.PreferredLifetime)
+					case *ndp.RouteInformation:
+						rl = int64(o.RouteLifetime)
+					}
+				}
+			}
+			pi.I(pv).I(pp).N(1)
+			ri.I(rl).N(1)
+		}
+		out.Line(pc.String(), pi.String())
+		out.Line(rc.String(), ri.String())
+		out.Flush()
+	})
+}
+
 func verifAdvCountdown(t *testing.T, r *vfh.Rand, out *vfh.Out) {
+	for _, flapAt := range []time.Duration{100*time.Millisecond + 1, 1500*time.Millisecond + 1, 2900*time.Millisecond + 1, 3100*time.Millisecond + 1, 4200*time.Millisecond + 1} {
+		vfRunAdvCountdownFlap(t, out, 20*time.Second, 10*time.Second, 15*time.Second, 0, flapAt, 9*time.Second)
+		vfRunAdvCountdownFlap(t, out, 6*time.Second, 3*time.Second, 5*time.Second, time.Second, flapAt, 9*time.Second)
+	}
 	vfRunAdvCountdown(t, out, 20*time.Second, 10*time.Second, 15*time.Second, 0, 13*time.Second+1, nil)
 	vfRunAdvCountdown(t, out, 4*time.Second, 2*time.Second, 3*time.Second, 0, 4500*time.Millisecond, nil)
 	for k := vfh.N(40, 1000); k > 0; k-- {
